@@ -179,6 +179,18 @@ def shard_grid(desc, rec):
             for o, exp in (([1, 2], "accept"), ((3, 4), "accept"), ([1, 2, 3], "refuse"), ((1,), "refuse"), ([], "refuse"),
                            ([[1, 2]], "refuse")):
                 check_arg(rec, name, fn, req, o, f"{type(o).__name__}:{o}", exp)
+            # two-element lists / tuples of any plain numbers: python ints and floats, numpy scalars (what list(arr),
+            # tuple(arr) or arr.tolist() give), mixed
+            for sc in (int, float, np.int16, np.int32, np.int64, np.uint16, np.uint32, np.float32, np.float64):
+                for ctor in (list, tuple):
+                    check_arg(rec, name, fn, req, ctor([sc(3), sc(40)]), f"{ctor.__name__}-of-{sc.__name__}", "accept")
+            for dt in ("int16", "int32", "int64", "float32"):
+                a2 = np.array([5, 6], dtype=dt)
+                check_arg(rec, name, fn, req, list(a2), f"list(ndarray:{dt})", "accept")
+                check_arg(rec, name, fn, req, tuple(a2), f"tuple(ndarray:{dt})", "accept")
+                check_arg(rec, name, fn, req, a2.tolist(), f"ndarray:{dt}.tolist()", "accept")
+            check_arg(rec, name, fn, req, [1, np.int32(2)], "list:mixed-int-npint", "accept")
+            check_arg(rec, name, fn, req, (np.float32(1), 2), "tuple:mixed-npfloat-int", "accept")
         else:
             # exactly-shaped nested list / tuple: "every other ... kind of object" is refused (only viewports
             # are documented to take two-element lists / tuples)
